@@ -139,6 +139,9 @@ def _body_src(fn: dict) -> str:
         return f"return {a[0]}({lit(b['o'])})"
     if k == "swapped":
         return f"return ({a[0]}[1], {a[0]}[0])"
+    if k in ("elem_list", "elem_tuple", "elem_seq"):
+        cls = {"elem_list": "list", "elem_tuple": "tuple", "elem_seq": "Sequence"}[k]
+        return f"return {a[0]}[0] if isinstance({a[0]}, {cls}) and {a[0]} else {a[1]}"
     if k == "firstor":
         return f"return {a[0]}[0] if {a[0]} else {a[1]}"
     if k == "new":
@@ -566,6 +569,9 @@ def run(check: core.Check) -> None:
         "only calls that bind are generated (binding itself is C05); arguments: literals of the universe, `A()`/`B()`, "
         "and the helper functions where a Callable is declared; at most 3 arguments, at most MaxKw keywords; written "
         "plainly f(a, k=b) or through literals f(*(a,), **{'k': b})",
+        "the result clause presumes that a library body respects its own annotation: the bodies `xs[0] if isinstance(xs, "
+        "list) and xs else d` (xs: Union[T, list[T]], -> T) are outside it when the list passed is itself a member of the "
+        "value inferred for T (Calls!BodyAmbiguous); strings of the universe have at most one character",
         "sessions (several calls in one fresh run of the checker) only cover the protocol-cache family it_obj/it_int/"
         "it_str x ItI()/ItS()/A()/[1]; all other calls are observed in a Checker shared by the whole batch",
     ]
@@ -587,13 +593,17 @@ def run(check: core.Check) -> None:
     r = core.run_tlc("Calls", "Calls.strict.cfg", timeout=900)
     if r.violated != "InvSessDiagnosisStrict":
         raise core.MachineryError("sensitivity self-test failed: InvSessDiagnosisStrict unexpectedly holds on the model")
+    r = core.run_tlc("Calls", "Calls.strict2.cfg", timeout=900)
+    if r.violated != "InvDiagnosisStrict":
+        raise core.MachineryError("sensitivity self-test failed: InvDiagnosisStrict unexpectedly holds on the model")
     fixed = core.run_tlc("Calls", "Calls.fixed.cfg", timeout=900)
     if not fixed.ok:
         raise core.MachineryError(f"the model with the proposed repair does not satisfy the strict invariant: {fixed.error}")
     check.cov["sensitivity"] = (
         "model with *args left unchecked (Calls.sens1) and model ignoring TypeVar bounds/constraints (Calls.sens2) "
         "both violate InvDiagnosis; InvSessDiagnosisStrict (no deviation class) is violated: the protocol-cache "
-        "deviation is real on the model; Calls.fixed.cfg (proposed repair on) satisfies it"
+        "deviation is real on the model; Calls.fixed.cfg (proposed repair on) satisfies it; InvDiagnosisStrict is violated "
+        "(Calls.strict2): the orbound-ignored deviation is real on the model"
     )
     # 2. S->C: every TLC case through the real checker and real CPython, adjudicated by TLC
     ecfg = "Calls.emit.quick.cfg" if quick else "Calls.emit.thorough.cfg"
